@@ -444,6 +444,7 @@ func (p *JoinAcceptPayload) UnmarshalBinary(uplink bool, data []byte) error {
 		return err
 	}
 	p.RXDelay = uint8(data[11])
+	p.CFList = nil
 
 	if l == 28 {
 		p.CFList = &CFList{}
